@@ -12,9 +12,9 @@ SHOW = ("function show(v,d){d=d||0;try{ if(typeof v==='number'){return 'n:'+(Obj
         "return '{'+Object.keys(v).sort().map(k=>k+':'+show(v[k],d+1)).join(',')+'}';} return typeof v+':'+String(v);}catch(e){return 'showerr:'+(e&&e.name)}}")
 
 # ------------------------------------------------------------------ M-Ops operands
-MODEL_BIN = ["+", "-", "*", "<", ">", "<=", ">=", "==", "!=", "===", "!==", "&&", "||", "??"]
-MODEL_UN = ["!", "-", "+", "typeof", "void"]
-FIXED_TOKENS = ["U", "N", "T", "F", "nNaN", "nInf", "n-Inf", "n-0", "n0", "n1", "n-1", "n2", "n7", "n10", "n255", "n-300", "n65536",
+MODEL_BIN = ["+", "-", "*", "<", ">", "<=", ">=", "==", "!=", "===", "!==", "&&", "||", "??", "&", "|", "^", "<<", ">>", ">>>"]
+MODEL_UN = ["!", "-", "+", "typeof", "void", "~"]
+FIXED_TOKENS = ["U", "N", "T", "F", "nNaN", "nInf", "n-Inf", "n-0", "n0", "n1", "n-1", "n2", "n7", "n10", "n255", "n-300", "n65536", "n2147483647", "n2147483648", "n-2147483649", "n4294967295", "n4294967296", "n31", "n32", "n33", "n-1000000007",
                 "s", "s0", "s1", "s-1", "s 12 ", "sabc", "s0x10", "s-0x10", "sInfinity", "s-Infinity", "s+5", "s-0", "sa", "sb", "sB", "s10", "s9", "s007",
                 "s+", "s-", "s ", "strue", "snull", "sundefined", "sNaN", "s0x", "s1 2", "s++1"]
 ALPHA = " -+0123456789xafIABn"
@@ -248,6 +248,8 @@ FORMS1 = [
     ("arrow / function", "((x) => [x, typeof x])(A)", "(function (x) { return [x, typeof x] })(A)"),
     ("class / closure", "new (class { constructor(v) { this.v = v } get() { return this.v } })(A).get()", "((v) => ({ get: () => v }))(A).get()"),
     ("generator / array", "[...(function* (v) { yield v; yield v })(A)]", "[A, A]"),
+    ("yield* value, delegate done at once", "((v) => { function* d(){ return v } function* g(){ const r = yield* d(); return [r] } return g().next().value })(A)", "[A]"),
+    ("yield* value, delegate yields first", "((v) => { function* d(){ yield 0; return v } function* g(){ const r = yield* d(); return [r] } const it = g(); it.next(); return it.next().value })(A)", "[A]"),
     ("optional chain", "(A)?.x", "((v) => (v === null || v === undefined) ? undefined : v.x)(A)"),
     ("throw / catch identity", "((v) => { try { throw v } catch (e) { return e } })(A)", "A"),
     ("finally keeps value", "((v) => { try { return v } finally { } })(A)", "A"),
@@ -329,6 +331,10 @@ FEATURES = [
     "let closed=0; const iterable={ [Symbol.iterator](){ let i=0; return { next(){ return {value:i++, done:i>K+3} }, return(){ closed++; return {} } } } }; for (const v of iterable){ if (v==1) break } const [a]=iterable; try { for (const v of iterable) throw v } catch(e) {} out(closed, [...iterable]);",
     "const e=[K,J].entries(); out(e.next(), [...e]); const ks=new Map([[1,S]]).keys(); out(ks.next(), ks.next()); out([...new Set([3,1,3]).entries()]); out(typeof [][Symbol.iterator], Array.from({length:2, 0:S}));",
     "function* g(){ yield* g2(); } function* g2(){ yield K; return J } out([...g()]); out(Object.prototype.toString.call(g()), g() instanceof g, typeof g.prototype);",
+    # yield* result values (delegate that never yields, recursion, hand-written iterators)
+    "function* walk(n){ if (n===null) return 0; const l=yield* walk(n.l); yield n.v; const r=yield* walk(n.r); return l+r+1 } const tree={v:K,l:{v:1,l:null,r:null},r:{v:J,l:null,r:{v:9,l:null,r:null}}}; const vals=[]; const it=walk(tree); let st=it.next(); while(!st.done){ vals.push(st.value); st=it.next() } out(vals, st.value);",
+    "function* none(){ return S } function* one(){ yield 1; return K } function* outerG(){ const a=yield* none(); const b=yield* one(); const c=yield* []; const d=yield* {[Symbol.iterator](){ return { next(){ return {done:true, value:J} } } }}; return [a,b,c,d] } const it=outerG(); out(it.next('x'), it.next('y'), it.next('z'));",
+    "function* inner(){ const got=yield 'q'; return got+K } function* outerG(){ const r1=yield* inner(); const r2=yield* (function*(){ return r1+J })(); yield r2; return 'end' } const it=outerG(); out(it.next(), it.next(10), it.next(), it.next());",
     # exceptions
     "function f(v){ try { if (v==0) throw new RangeError(S); if (v==1) return 'ret'; out('body') } catch(e) { out('catch', e.name); return 'c' } finally { out('fin', v) } return 'end' } out(f(0), f(1), f(2));",
     "function f(){ for (let i=0;i<3;i++){ try { if (i==K%3) continue; if (i==2) break; out('b',i) } finally { out('f',i) } } try { try { throw 1 } finally { out('inner') } } catch(e) { out('outer', e) } try { return 'r' } finally { try { out('nested') } finally { out('nested2') } } } out(f());",
